@@ -79,7 +79,15 @@ def main():
     rc0, o0 = sh(f"/venv/bin/python {d / 'demo.py'}", cwd="/tmp", env=env0, timeout=1800)
     rc, out = sh(f"git apply {d / 'patch.diff'}", cwd=r)
     if rc != 0:
-        sys.exit("patch does not apply: " + out)
+        # the tree moved on (fix: commits near the edited lines): retry with less context, then with patch(1)'s fuzz
+        rc, out2 = sh(f"git apply -C1 --recount {d / 'patch.diff'}", cwd=r)
+        if rc != 0:
+            sh("git checkout -- . && git clean -fdq", cwd=r)
+            rc, out2 = sh(f"patch -p1 -F3 --no-backup-if-mismatch -i {d / 'patch.diff'}", cwd=r)
+        if rc != 0:
+            sh("git checkout -- . && git clean -fdq", cwd=r)
+            sys.exit("patch does not apply: " + out)
+        meta["applied_with_fuzz"] = True
     results, suite_res = {}, None
     try:
         rci, oi = sh("/venv/bin/python -c 'import exetera, exetera.core.session, exetera.core.operations'", cwd="/tmp", env=env1)
